@@ -48,7 +48,7 @@ def check(run):
     run.floor('R10.order', 3)
     run.floor('R10.fold', 6)
     run.floor('R11.apply', 8)
-    run.floor('R11.compile', 8)
+    run.floor('R11.compile', 36)
     run.floor('R10.gen', 12)
     run.floor('R11.indep', 4)
     run.decide('backward mirrors forward at every level: negated generator, backward map or inverted forward map, '
